@@ -44,6 +44,7 @@ ASSUMPTIONS = c01.ASSUMPTIONS + [
 COMPONENTS = dict(c01.COMPONENTS)
 COMPONENTS["real"] = COMPONENTS["real"] + ["local filesystem store for work_dir variants"]
 
+TIGHT = [None]
 VARIANTS = ["default_config", "explicit_equal", "work_dir2", "inter_store", "compressor_none", "compressor_dict",
             "reserved", "executor_in_spec", "bigger_allowed"]
 
@@ -59,6 +60,14 @@ def generate(tp: Tape, tier: str):
     case = c01.generate(tp, tier, profile=profile)
     others = tp.sample(VARIANTS[1:], 2)
     case["variants"] = ["default_config"] + others
+    if tp.coin(1, 3):
+        # tight budgets: two specs that leave the same memory for data (allowed A / reserved 0 versus
+        # allowed A+R / reserved R) must take the same decisions (rechunk planning, fusion, admission)
+        case = c01.generate(tp, tier, profile=tp.choice(["rechunk", "rechunk", "general", "reduce"]),
+                            max_extent=tp.choice([24, 40]), dtypes=["float64", "int64"])
+        a = tp.choice([20_000, 50_000, 100_000, 400_000])
+        case["tight"] = dict(A=a, R=a * tp.choice([1, 3, 10]))
+        case["variants"] = ["tight_base", "tight_reserved"]
     case["exec"] = H.exec_cfg_from_tape(tp, kinds=("single", "single", "threads"))
     case["opt"] = dict(kind="default")
     return case
@@ -70,6 +79,13 @@ def make_variant_spec(name, scratch, sim, executor):
 
     base = dict(allowed_mem="2GB", reserved_mem="100MB")
     cfg = contextlib.nullcontext()
+    if name in ("tight_base", "tight_reserved"):
+        st = simstore.SimStore(name="inter-" + name)
+        sim.attach_store(st)
+        t = TIGHT[0]
+        if name == "tight_base":
+            return cubed.Spec(intermediate_store=st, allowed_mem=t["A"], reserved_mem=0, zarr_compressor=None), cfg
+        return cubed.Spec(intermediate_store=st, allowed_mem=t["A"] + t["R"], reserved_mem=t["R"], zarr_compressor=None), cfg
     if name == "default_config":
         cfg = cubed.config.set({"spec.work_dir": scratch + "/d"})
         return None, cfg
@@ -101,13 +117,14 @@ def execute(case, sched=None):
     tape = Tape(case["sched_seed"]) if sched is None else Tape(replay=sched)
     sim = Sim(tape, case.get("sim"))
     prog = case["prog"]
+    TIGHT[0] = case.get("tight")
     outcomes = []
     scratch = tempfile.mkdtemp(prefix="verif-c19-")
     total_ops = 0
     try:
         with activated(sim), H.quiet(), H.single_job_labels(sim):
-            for vname in case["variants"]:
-                H.reset_globals(case.get("py_seed", 0))
+            for vi, vname in enumerate(case["variants"]):
+                H.reset_globals(case.get("py_seed", 0), keep_stores=vi > 0)
                 for s in sim.stores:
                     pass
                 src = simstore.SimStore(name="src-" + vname)
@@ -183,7 +200,9 @@ def execute(case, sched=None):
                     violations.append(dict(cls="wrong_value", msg=f"{o['variant']} value {vid}: {d}"))
                     break
     accepted = sum(1 for o in outcomes if o["results"] is not None)
-    counters = {"variants_run": len(outcomes), "variants_accepted": accepted, "ops_executed": total_ops}
+    counters = {"variants_run": len(outcomes), "variants_accepted": accepted, "ops_executed": total_ops,
+                "tight_budget_runs": int(bool(case.get("tight"))),
+                "tight_budget_refusals": int(bool(case.get("tight")) and any(o["phase"] in ("plan", "build") or o["declines"] for o in outcomes))}
     for o in outcomes:
         counters["variant_" + o["variant"]] = 1
     for o in PR.ops_used(prog):
